@@ -471,7 +471,8 @@ macro_rules! local_verifier {
                 if ok { Ok((b, notes)) } else { Err(notes.join("; ")) }
             }
             Layer::Generic => {
-                let mut p = GenericParser::<$V, Local>::default();
+                // `new()` and `default()` are documented as the same thing; both are used
+                let mut p = if $spec.hash_seed & 1 == 1 { GenericParser::<$V, Local>::new() } else { GenericParser::<$V, Local>::default() };
                 configure_parser!(p, $spec, $arena, notes, ok, assert = $assert, generic = yes);
                 if !ok {
                     return Err(notes.join("; "));
@@ -550,7 +551,7 @@ macro_rules! public_verifier {
                 if ok { Ok((b, notes)) } else { Err(notes.join("; ")) }
             }
             Layer::Generic => {
-                let mut p = GenericParser::<$V, Public>::default();
+                let mut p = if $spec.hash_seed & 1 == 1 { GenericParser::<$V, Public>::new() } else { GenericParser::<$V, Public>::default() };
                 configure_parser!(p, $spec, $arena, notes, ok, assert = $assert, generic = yes);
                 if !ok {
                     return Err(notes.join("; "));
@@ -696,6 +697,10 @@ pub trait BuilderObj {
     /// claim constructor
     fn op(&mut self, op: &BOp, arena: &Arena) -> bool;
     fn build(&mut self, km: &KeyMat) -> Outcome;
+    /// `build_payload_from_claims()` where the builder type offers it
+    fn peek(&mut self) -> Option<Result<String, String>> {
+        None
+    }
 }
 
 fn tok(r: Result<String, GenericBuilderError>) -> Outcome {
@@ -736,11 +741,15 @@ macro_rules! builder_impl {
                         true
                     }
                     BOp::SetAssertion(_a) => builder_impl!(@assert $assert, b, _a, arena),
+                    BOp::PeekPayload => true,
                 }
             }
             fn build(&mut self, km: &KeyMat) -> Outcome {
                 let f: fn(&mut $ty, &KeyMat) -> Outcome = $build;
                 f(&mut self.0, km)
+            }
+            fn peek(&mut self) -> Option<Result<String, String>> {
+                Some(self.0.build_payload_from_claims().map_err(|e| e.to_string()))
             }
         }
     };
@@ -762,6 +771,7 @@ macro_rules! builder_impl {
                         true
                     }
                     BOp::SetAssertion(_a) => builder_impl!(@assert $assert, b, _a, arena),
+                    BOp::PeekPayload => false,
                 }
             }
             fn build(&mut self, km: &KeyMat) -> Outcome {
@@ -802,6 +812,20 @@ local_builders!(GenB4L, BatB4L, V4, yes);
 
 #[allow(unused_macros)]
 macro_rules! slice_public_builders {
+    ($gname:ident, $bname:ident, $V:ident, $P:expr, $assert:tt, k64) => {
+        // generic layer: the key handed over as `&Key<64>` (the batteries layer below keeps the slice form)
+        builder_impl!($gname, GenericBuilder<'static, 'static, $V, Public>, generic, $assert, |b, km| {
+            match km.private_for($P) {
+                Some(k) if k.len() == 64 => {
+                    let k64 = Key::<64>::from(k.as_slice());
+                    tok(b.try_sign(&PasetoAsymmetricPrivateKey::<$V, Public>::from(&k64)))
+                }
+                Some(k) => tok(b.try_sign(&PasetoAsymmetricPrivateKey::<$V, Public>::from(k.as_slice()))),
+                None => harness_key_err("need private key"),
+            }
+        });
+        slice_public_builders!(@bat $bname, $V, $P, $assert);
+    };
     ($gname:ident, $bname:ident, $V:ident, $P:expr, $assert:tt) => {
         builder_impl!($gname, GenericBuilder<'static, 'static, $V, Public>, generic, $assert, |b, km| {
             match km.private_for($P) {
@@ -809,6 +833,9 @@ macro_rules! slice_public_builders {
                 None => harness_key_err("need private key"),
             }
         });
+        slice_public_builders!(@bat $bname, $V, $P, $assert);
+    };
+    (@bat $bname:ident, $V:ident, $P:expr, $assert:tt) => {
         builder_impl!($bname, PasetoBuilder<'static, $V, Public>, batteries, $assert, |b, km| {
             match km.private_for($P) {
                 Some(k) => tok(b.build(&PasetoAsymmetricPrivateKey::<$V, Public>::from(k.as_slice()))),
@@ -820,9 +847,9 @@ macro_rules! slice_public_builders {
 #[cfg(feature = "set_a")]
 slice_public_builders!(GenB1P, BatB1P, V1, Proto::V1P, no);
 #[cfg(feature = "set_a")]
-slice_public_builders!(GenB2P, BatB2P, V2, Proto::V2P, no);
+slice_public_builders!(GenB2P, BatB2P, V2, Proto::V2P, no, k64);
 #[cfg(feature = "set_a")]
-slice_public_builders!(GenB4P, BatB4P, V4, Proto::V4P, yes);
+slice_public_builders!(GenB4P, BatB4P, V4, Proto::V4P, yes, k64);
 
 #[cfg(feature = "set_b")]
 builder_impl!(GenB3P, GenericBuilder<'static, 'static, V3, Public>, generic, yes, |b, km| {
@@ -853,9 +880,9 @@ pub fn make_builder(proto: Proto, layer: Layer) -> Result<Box<dyn BuilderObj>, S
         (_, Layer::Core) => return Err("core layer has no builder object".into()),
         (Proto::V1L, Layer::Generic) => Box::new(GenB1L(GenericBuilder::default())),
         (Proto::V1L, Layer::Batteries) => Box::new(BatB1L(PasetoBuilder::default())),
-        (Proto::V2L, Layer::Generic) => Box::new(GenB2L(GenericBuilder::default())),
+        (Proto::V2L, Layer::Generic) => Box::new(GenB2L(GenericBuilder::new())),
         (Proto::V2L, Layer::Batteries) => Box::new(BatB2L(PasetoBuilder::default())),
-        (Proto::V3L, Layer::Generic) => Box::new(GenB3L(GenericBuilder::default())),
+        (Proto::V3L, Layer::Generic) => Box::new(GenB3L(GenericBuilder::new())),
         (Proto::V3L, Layer::Batteries) => Box::new(BatB3L(PasetoBuilder::default())),
         (Proto::V4L, Layer::Generic) => Box::new(GenB4L(GenericBuilder::default())),
         (Proto::V4L, Layer::Batteries) => Box::new(BatB4L(PasetoBuilder::default())),
@@ -868,11 +895,11 @@ pub fn make_builder(proto: Proto, layer: Layer) -> Result<Box<dyn BuilderObj>, S
         #[cfg(feature = "set_a")]
         (Proto::V2P, Layer::Batteries) => Box::new(BatB2P(PasetoBuilder::default())),
         #[cfg(feature = "set_a")]
-        (Proto::V4P, Layer::Generic) => Box::new(GenB4P(GenericBuilder::default())),
+        (Proto::V4P, Layer::Generic) => Box::new(GenB4P(GenericBuilder::new())),
         #[cfg(feature = "set_a")]
         (Proto::V4P, Layer::Batteries) => Box::new(BatB4P(PasetoBuilder::default())),
         #[cfg(feature = "set_b")]
-        (Proto::V3P, Layer::Generic) => Box::new(GenB3P(GenericBuilder::default())),
+        (Proto::V3P, Layer::Generic) => Box::new(GenB3P(GenericBuilder::new())),
         #[cfg(feature = "set_b")]
         (Proto::V3P, Layer::Batteries) => Box::new(BatB3P(PasetoBuilder::default())),
         #[allow(unreachable_patterns)]
@@ -1188,11 +1215,11 @@ impl World {
                 let arena = &self.arena;
                 match self.builders.get_mut(b) {
                     None => Obs::Skipped("no such builder".into()),
-                    Some((_, _, obj)) => match env::guarded(|| obj.op(op, arena)) {
-                        Ok(applied) => Obs::BuilderOp { applied, panic: None },
+                    Some((_, _, obj)) => match env::guarded(|| if *op == BOp::PeekPayload { (obj.op(op, arena), obj.peek()) } else { (obj.op(op, arena), None) }) {
+                        Ok((applied, peek)) => Obs::BuilderOp { applied, panic: None, peek },
                         Err(at) => {
                             self.builders.remove(b);
-                            Obs::BuilderOp { applied: false, panic: Some(at) }
+                            Obs::BuilderOp { applied: false, panic: Some(at), peek: None }
                         }
                     },
                 }
